@@ -72,6 +72,22 @@ pub struct Walked {
     pub last_sub: Option<String>,
 }
 
+impl Walked {
+    /// the NUL-terminated strings of a top-level string table (MTEX / MMDX / MWMO), decoded here
+    pub fn strings(&self, b: &[u8], name: &[u8; 4]) -> Option<Vec<Vec<u8>>> {
+        let c = self.top.iter().find(|c| &c.name == name)?;
+        let data = &b[c.off + 8..c.off + 8 + c.size];
+        let mut out: Vec<Vec<u8>> = data.split(|&x| x == 0).map(|s| s.to_vec()).collect();
+        // a well-formed table ends with a terminator, which leaves one empty tail piece
+        if out.last().is_some_and(|l| l.is_empty()) {
+            out.pop();
+        } else if !data.is_empty() {
+            return None; // unterminated last string
+        }
+        Some(out)
+    }
+}
+
 /// MHDR slots: (byte offset inside MHDR payload, chunk name, required in a monolithic root file)
 const MHDR_SLOTS: [(usize, &[u8; 4], bool); 11] = [
     (0x04, b"MCIN", true),
